@@ -517,6 +517,17 @@ def check(tier: str) -> Result:
             ok = bool(reg_first)
             why = "kwargs = {**registered kwargs, **caller kwargs} (fresh dict, caller overrides)" if ok else \
                 f"dict literal {txt(passed, 4, 120)} is not {{**registered kwargs, **caller kwargs}} in that order"
+        elif passed is not None and passed.kind == "loop":
+            # kw = registered.copy(); for k, v in caller.items(): kw[k] = v
+            init_, body_ = uncopy(passed.args[0]), uncopy(passed.args[1])
+            copied = (init_.kind == "call" and init_.args[0].kind == "attr" and init_.args[0].args[1] == "copy" and init_.args[0].args[0].kind == "attr"
+                      and init_.args[0].args[0].args[1] == "kwargs" and contains(init_.args[0].args[0], REGT)) or \
+                (ext_name(init_) in ("builtins.dict", "copy.copy", "copy.deepcopy") and init_.args[1] and init_.args[1][0].kind == "attr"
+                 and init_.args[1][0].args[1] == "kwargs" and contains(init_.args[1][0], REGT))
+            over = ext_name(body_) == "builtins.setitem" and len(body_.args[1]) == 3 and contains(body_.args[1][1], kwp) and contains(body_.args[1][2], kwp) \
+                and not contains(body_.args[1][1], REGT)
+            ok = bool(copied and over)
+            why = f"kwargs = copy of the registered kwargs ({bool(copied)}) overlaid item by item with the caller's ({bool(over)})"
         else:
             why = f"constructor kwargs {txt(passed, 4, 160) if passed is not None else None} are not a copy of the registered kwargs updated with the caller's"
         ctor = r.args[0]
@@ -524,14 +535,28 @@ def check(tier: str) -> Result:
         ok = ok and ep_ok
         why += f"; class loaded from the registered entry_point: {ep_ok}"
     res.add("C18.R3", f.loc(), "registration.make", "constructor receives a copy of the registered kwargs overridden by the caller's kwargs", ok, why)
+    def _fresh_copy(t_):
+        t_ = uncopy(t_)
+        while t_.kind in ("loopin", "loop"):
+            t_ = uncopy(t_.args[0])
+        return (t_.kind == "call" and t_.args[0].kind == "attr" and t_.args[0].args[1] in ("copy",)) or ext_name(t_) in ("builtins.dict", "copy.copy", "copy.deepcopy") or t_.kind == "dict"
     bad = [e for e in v3.events if e.kind in ("store_attr", "store_sub", "mutate") and e.func is f and
-           (contains(e.target, REGT)) and not (e.kind == "mutate" and e.target.kind == "call")]
+           (contains(e.target, REGT)) and not (e.kind == "mutate" and e.target.kind == "call") and not _fresh_copy(e.target)]
     res.add("C18.R3", f.loc(), "registration.make", "make never writes to the registry or to the registered spec", not bad,
             "no write reaches _REGISTRY / env_spec" if not bad else f"{[ast.unparse(e.node)[:60] for e in bad]}")
     ok = False
     why = "no raising path"
+    def _failed_lookup(t, pol):
+        """`spec is None` for spec = REG.get(id) / a try-REG[id]-except-KeyError-None sentinel"""
+        if not (t.kind == "cmp" and t.args[0] == "is" and t.args[2] is NONE and pol):
+            return False
+        x = uncopy(t.args[1])
+        alts = list(x.args[0]) if x.kind == "phi" else [x]
+        looks = [a for a in alts if (uncopy(a).kind == "index" and uncopy(a).args[0] is REGT) or
+                 (uncopy(a).kind == "call" and uncopy(a).args[0].kind == "attr" and uncopy(a).args[0].args[1] == "get" and uncopy(a).args[0].args[0] is REGT)]
+        return bool(looks)
     for fn, node, path, exc in raise_exits(v3):
-        hit = [t for t, pol, _ in path if t.kind == "cmp" and t.args[0] == "in" and t.args[2] is REGT and not pol]
+        hit = [t for t, pol, _ in path if (t.kind == "cmp" and t.args[0] == "in" and t.args[2] is REGT and not pol) or _failed_lookup(t, pol)]
         own = [t for t, pol, pf in path if pf is f or pf is fn]
         if hit and len(own) == 1 and own[0] is hit[0]:
             uses_registry = exc is not None and contains(exc, REGT)
